@@ -13,7 +13,7 @@ import (
 // argument position filled from a typed alphabet, delivered as literals and
 // through document fields.
 
-var c02Quick = []string{"null", "true", `""`, `"a"`, `"aba"`, `"aé€"`, "-1", "0", "2", "1.5", "[]", "[2,1]", `["b","a"]`, `[["k",1]]`, `[[null,1]]`, `{"a":1}`}
+var c02Quick = []string{"null", "true", `""`, `"a"`, `"aba"`, `"aé€"`, "-1", "0", "2", "4", "1.5", "9223372036854775807", "[]", "[2,1]", `["b","a"]`, `[["k",1]]`, `[[null,1]]`, `{"a":1}`}
 
 var c02Full = []string{
 	"null", "true", `""`, `"a"`, `"ab"`, `"aba"`, `"a,b"`, `" a "`, `"é"`, `"aé€"`,
